@@ -4,6 +4,7 @@ import (
 	"fmt"
 	"go/constant"
 	"go/token"
+	"math/big"
 	"strings"
 
 	"golang.org/x/tools/go/ssa"
@@ -19,7 +20,7 @@ func init() {
 		Run:   runC04,
 		Explanation: "Writer/reader agreement over constants, each a necessary condition of the round trip. C04.forms: MarshalJSON as a decision table over the two package switches emits object / quoted text / bare number; the object is {\"<ObjectKeyValue>\":<Shorten value>,\"<ObjectKeyUnit>\":\"<Shorten unit>\"}; MarshalText selects bare bytes or Formatter(nil, s, 0) by DisableMarshalTextUnit; DefaultRule's initialiser enables the object and string forms; UnmarshalText masks the rule to RuleDisableUnit, UnmarshalJSON passes DefaultRule. " +
 			"C04.exact: the reading side is exact near 2^64 — newSize as a decision table with the product checked through the high word of bits.Mul64 (C08's rules under this property). C04.quote: the string form is exactly '\"' + text + '\"' (the shift-by-one copy idiom is checked piece by piece). " +
-			"C04.vocab: every unit Shorten can return is a key of unitToValues with multiplier 2^(10·index), so value × multiplier rebuilds what Shorten split. " +
+			"C04.vocab: Shorten evaluated abstractly (as C13.shorten) returns (s >> 10k, k-th binary unit) and unitToValues maps that unit to 2^(10k), so value × multiplier rebuilds what Shorten split. " +
 			"C04.keys: the reader switches on the marshal key constants after strings.ToLower, and the constants are lower-case. " +
 			"C04.sep: the separator the pretty formatter emits (\" \") is skipped by the text parser before and between digits and before the unit; units are letters only, so the hand-made quoting needs no escaping. C04.limit: MaxInputLength admits the longest emitted form.",
 		NotDecided:  []string{"the arithmetic composition for all 2^64 values (digit grouping composed with ParseUint of the regrouped digits)", "nested encoding/json behaviour (stdlib)"},
@@ -31,13 +32,17 @@ func init() {
 func runC04(e *Env) {
 	ruleC04Forms(e)
 	ruleC04Quote(e)
-	// vocabulary: C13's table and Shorten rules under this property's name
-	n0 := len(e.S.Obs)
-	units := ruleC13Tab(e)
-	ruleC13Shorten(e, units)
-	for i := n0; i < len(e.S.Obs); i++ {
-		if strings.HasPrefix(e.S.Obs[i].Rule, "C13.") {
-			e.S.Obs[i].Rule = "C04.vocab"
+	// vocabulary: Shorten's meaning (C13.shorten) under this property's name, and the reader's multipliers for the units
+	// it can return
+	ruleShortenSem(e, "C04.vocab")
+	if got, utv := sizeUnits(e, "C04.vocab"); got != nil {
+		for k, u := range []string{"B", "KiB", "MiB", "GiB", "TiB", "PiB", "EiB"} {
+			wantMul := new(big.Int).Lsh(big.NewInt(1), uint(10*k))
+			if got[u] != nil && got[u].Cmp(wantMul) == 0 {
+				e.S.Ok("C04.vocab", "size.unitToValues", "unit "+u, fmt.Sprintf("the reader multiplies %s by 2^%d, what Shorten divided by", u, 10*k), e.tpos("size", utv))
+			} else {
+				e.S.Bad("C04.vocab", "size.unitToValues", "unit "+u, fmt.Sprintf("Shorten returns %s after dividing by 2^%d but the reader's multiplier for it is %v", u, 10*k, got[u]), e.tpos("size", utv), "Size(1<<"+fmt.Sprint(10*k)+")")
+			}
 		}
 	}
 	// the reading side is exact: newSize's product is overflow-checked and its decision table is the documented one
@@ -58,7 +63,7 @@ func runC04(e *Env) {
 	ruleLimitAccept(e, "C04.limit", "size")
 	e.S.Floor("C04.forms", 8)
 	e.S.Floor("C04.quote", 4)
-	e.S.Floor("C04.vocab", 10)
+	e.S.Floor("C04.vocab", 15)
 	e.S.Floor("C04.keys", 4)
 	e.S.Floor("C04.sep", 3)
 }
